@@ -226,6 +226,7 @@ pub fn run(args: &Args, rep: &mut Report) {
         let (gcfg, tiny, force) = gen_profile(&profile, &mut rng);
         let fixed_fat = args.get("fat").and_then(|v| v.parse::<u8>().ok());
         let mut vc = grid(&mut rng, tiny);
+        let force_copy = force.clone();
         if let Some(f) = force {
             vc = f;
         }
@@ -241,7 +242,28 @@ pub fn run(args: &Args, rep: &mut Report) {
         let mut builder_label = None;
         let (img, vol_bytes) = if args.flag("builder") && rng.chance(3, 4) {
             // foreign volume from the spec-driven builder (3 FATs, mirroring off, high nibbles, residue, ...)
-            let spec = crate::build::Spec::random(&mut rng);
+            let mut spec = crate::build::Spec::random(&mut rng);
+            if let Some(f) = &force_copy {
+                // fill workloads: a tiny foreign FAT12/FAT16 volume that really runs full
+                if f.fat != 32 {
+                    spec.fat = f.fat;
+                    spec.clusters = if f.fat == 12 { f.clusters.max(24) + 16 } else { 4085 + rng.below(20) as u32 };
+                    spec.bps = 512;
+                    spec.spc = u32::from(f.spc);
+                    spec.slack_sectors = if spec.spc > 1 { 1 } else { 0 };
+                    spec.root_entries = 32;
+                    spec.root_cluster = 0;
+                    spec.reserved = 1 + rng.below(3) as u32;
+                    spec.mirroring = true;
+                    spec.active_fat = 0;
+                    spec.fsinfo_sector = 0;
+                    spec.backup_sector = 0;
+                    spec.high_nibbles = false;
+                    spec.max_depth = 1;
+                    spec.max_entries = 2;
+                    spec.extra_fat_sectors = 1 + rng.below(2) as u32;
+                }
+            }
             match crate::build::build(&spec, &mut rng) {
                 Ok((img, t)) => {
                     builder_label = Some(spec.label());
